@@ -4,13 +4,18 @@ set -u
 HERE="$(cd "$(dirname "$0")" && pwd)"
 export GOFLAGS=-mod=mod GOPROXY=off
 export VERIF_DIR="$HERE"
-mkdir -p "$HERE/bin" "$HERE/build" "$HERE/evidence"
 REPO="${VERIF_REPO:-/repo}"
+BIN="$HERE/bin"; BUILD="$HERE/build"
+if [ "$REPO" != "/repo" ]; then
+  # exploratory runs against a snapshot keep their binaries and overlays apart from those of the registered checks
+  BUILD="$HERE/build/alt-$(basename "$REPO")"; BIN="$BUILD/bin"
+fi
+mkdir -p "$BIN" "$BUILD" "$HERE/evidence"
 HARNESS="$HERE/harness"
 if [ "$REPO" != "/repo" ]; then
   # exploratory runs against a snapshot of the repository (never used by the registered checks)
-  rm -rf "$HERE/build/harness-alt" && cp -r "$HERE/harness" "$HERE/build/harness-alt"
-  HARNESS="$HERE/build/harness-alt"
+  rm -rf "$BUILD/harness-alt" && cp -r "$HERE/harness" "$BUILD/harness-alt"
+  HARNESS="$BUILD/harness-alt"
   (cd "$HARNESS" && go mod edit -replace "github.com/onflow/atree=$REPO")
 fi
 cd "$HARNESS" || exit 2
@@ -19,23 +24,23 @@ ID="${1:-}"
 case "$ID" in
   C04|C16)
     # schedule-controlled build: instrument the current sources, build with the overlay
-    if ! go build -o "$HERE/bin/instrument" ./cmd/instrument 2>"$HERE/build/build.err"; then
-      echo "BUILD FAILED (instrumenter):"; cat "$HERE/build/build.err"; exit 2
+    if ! go build -o "$BIN/instrument" ./cmd/instrument 2>"$BUILD/build.err"; then
+      echo "BUILD FAILED (instrumenter):"; cat "$BUILD/build.err"; exit 2
     fi
-    if ! (cd "$REPO" && "$HERE/bin/instrument" "$REPO" "$HERE/build/sched" "$HERE/harness/vsched_src/vsched.go") >"$HERE/build/instrument.out" 2>&1; then
-      echo "TOOL ERROR (instrumenter could not rewrite the current sources):"; cat "$HERE/build/instrument.out"; exit 2
+    if ! (cd "$REPO" && "$BIN/instrument" "$REPO" "$BUILD/sched" "$HERE/harness/vsched_src/vsched.go") >"$BUILD/instrument.out" 2>&1; then
+      echo "TOOL ERROR (instrumenter could not rewrite the current sources):"; cat "$BUILD/instrument.out"; exit 2
     fi
-    cat "$HERE/build/instrument.out"
-    if ! go build -tags "verif sched" -overlay "$HERE/build/sched/overlay.json" -o "$HERE/bin/check-sched" ./cmd/check 2>"$HERE/build/build.err"; then
-      echo "BUILD FAILED (schedule-controlled harness against /repo working tree):"; cat "$HERE/build/build.err"; exit 2
+    cat "$BUILD/instrument.out"
+    if ! go build -tags "verif sched" -overlay "$BUILD/sched/overlay.json" -o "$BIN/check-sched" ./cmd/check 2>"$BUILD/build.err"; then
+      echo "BUILD FAILED (schedule-controlled harness against /repo working tree):"; cat "$BUILD/build.err"; exit 2
     fi
     if [ "$ID" = "C16" ]; then
-      if ! go build -race -tags "verif sched" -overlay "$HERE/build/sched/overlay.json" -o "$HERE/bin/check-race" ./cmd/check 2>"$HERE/build/build.err"; then
-        echo "BUILD FAILED (race build):"; cat "$HERE/build/build.err"; exit 2
+      if ! go build -race -tags "verif sched" -overlay "$BUILD/sched/overlay.json" -o "$BIN/check-race" ./cmd/check 2>"$BUILD/build.err"; then
+        echo "BUILD FAILED (race build):"; cat "$BUILD/build.err"; exit 2
       fi
     fi
     cd "$HERE"
-    exec "$HERE/bin/check-sched" "$@"
+    exec "$BIN/check-sched" "$@"
     ;;
 esac
 # Sequential checks: build from rewritten copies of the current sources (overlay; /repo untouched) so that the
@@ -44,23 +49,23 @@ esac
 # Preference: full rewrite (pools + map ranges; hooks are no-ops around the real primitives when no controller is
 # attached) -> pools only (textual import redirection) -> plain build with the real sync.Pool.
 POOLS_OK=0
-if go build -o "$HERE/bin/instrument" ./cmd/instrument 2>"$HERE/build/build.err"; then
-  if (cd "$REPO" && "$HERE/bin/instrument" "$REPO" "$HERE/build/seq" "$HERE/harness/vsched_src/vsched.go") >"$HERE/build/seq.out" 2>&1 && \
-     go build -tags "verif pools" -overlay "$HERE/build/seq/overlay.json" -o "$HERE/bin/check" ./cmd/check 2>"$HERE/build/build.err"; then
+if go build -o "$BIN/instrument" ./cmd/instrument 2>"$BUILD/build.err"; then
+  if (cd "$REPO" && "$BIN/instrument" "$REPO" "$BUILD/seq" "$HERE/harness/vsched_src/vsched.go") >"$BUILD/seq.out" 2>&1 && \
+     go build -tags "verif pools" -overlay "$BUILD/seq/overlay.json" -o "$BIN/check" ./cmd/check 2>"$BUILD/build.err"; then
     POOLS_OK=1
-  elif (cd "$REPO" && "$HERE/bin/instrument" "$REPO" "$HERE/build/pools" "$HERE/harness/vsched_src/vsched.go" --pools-only) >"$HERE/build/pools.out" 2>&1 && \
-     go build -tags "verif pools" -overlay "$HERE/build/pools/overlay.json" -o "$HERE/bin/check" ./cmd/check 2>"$HERE/build/build.err"; then
+  elif (cd "$REPO" && "$BIN/instrument" "$REPO" "$BUILD/pools" "$HERE/harness/vsched_src/vsched.go" --pools-only) >"$BUILD/pools.out" 2>&1 && \
+     go build -tags "verif pools" -overlay "$BUILD/pools/overlay.json" -o "$BIN/check" ./cmd/check 2>"$BUILD/build.err"; then
     POOLS_OK=1
-    echo "note: map ranges not rewritten ($(tail -1 "$HERE/build/seq.out" 2>/dev/null)); pool shim only"
+    echo "note: map ranges not rewritten ($(tail -1 "$BUILD/seq.out" 2>/dev/null)); pool shim only"
   fi
 fi
 if [ "$POOLS_OK" != 1 ]; then
-  echo "note: pool shim not applied ($(tail -1 "$HERE/build/pools.out" 2>/dev/null)); plain build"
-  if ! go build -tags verif -o "$HERE/bin/check" ./cmd/check 2>"$HERE/build/build.err"; then
+  echo "note: pool shim not applied ($(tail -1 "$BUILD/pools.out" 2>/dev/null)); plain build"
+  if ! go build -tags verif -o "$BIN/check" ./cmd/check 2>"$BUILD/build.err"; then
     echo "BUILD FAILED (harness against /repo working tree):"
-    cat "$HERE/build/build.err"
+    cat "$BUILD/build.err"
     exit 2
   fi
 fi
 cd "$HERE"
-exec "$HERE/bin/check" "$@"
+exec "$BIN/check" "$@"
